@@ -292,12 +292,13 @@ theorem evalArgs_envOK (cs : Bool) (vt : List CSem.Ty) (s : Store)
 
 /-- the memory while the body runs has room for the activations the caller was promised -/
 theorem Stat.room_at (T : Stat) {s : Store} {env : Env} {M : Mem}
-    (inv : SInv T.M0 T.S.cs T.σ T.vtys s env M) : Room T.K T.d M := by
+    (inv : SInv T.M0 T.S.cs T.cnts T.σ T.vtys s env M) : Room T.K T.d M := by
   obtain ⟨h1, h2⟩ := T.hroom
   rw [Nat.succ_mul] at h1 h2
   have := inv.a.sp_lo
   have := inv.a.ssize
   have := T.hK
+  have hm := xcount_mono T.cnts (a := T.vtys.length) (b := T.cnts.length) (by rw [inv.clen]; exact Nat.le_refl _)
   constructor <;> omega
 
 theorem Room.sp_enter {K d : Nat} {M : Mem} (h : Room K d M) (hd : 0 < d) :
@@ -352,11 +353,11 @@ theorem sim_callcore (n : Nat) (hf : FuncSim T n) (hd : 0 < T.d) {rt : CSem.Ty} 
     (hits : T.S.its = pre ++ (lowerArgs T.S.cs c.slots args c.ctx).1 ++
       .ins (.call (some (tmpName ((lowerArgs T.S.cs c.slots args c.ctx).2.2.lastid + 1), .base (cls rt)))
         (.glob fn false) (lowerArgs T.S.cs c.slots args c.ctx).2.1 none) :: post)
-    (inv : SInv T.M0 T.S.cs T.σ T.vtys s env M) :
+    (inv : SInv T.M0 T.S.cs T.cnts T.σ T.vtys s env M) :
     ∃ k env2 r', T.Reach k (T.at env M pre) (T.at env2 M (pre ++ (lowerArgs T.S.cs c.slots args c.ctx).1 ++
         [.ins (.call (some (tmpName ((lowerArgs T.S.cs c.slots args c.ctx).2.2.lastid + 1), .base (cls rt)))
           (.glob fn false) (lowerArgs T.S.cs c.slots args c.ctx).2.1 none)])) ∧
-      SInv T.M0 T.S.cs T.σ T.vtys s env2 M ∧
+      SInv T.M0 T.S.cs T.cnts T.σ T.vtys s env2 M ∧
       Frame c.lastid ((lowerArgs T.S.cs c.slots args c.ctx).2.2.lastid + 1) env env2 ∧
       readVal T.S.p env2 (.tmp (tmpName ((lowerArgs T.S.cs c.slots args c.ctx).2.2.lastid + 1))) = .ok r' ∧
       Rep rt v r' ∧ InRange (rt.intTy T.S.cs) v := by
@@ -378,7 +379,7 @@ theorem sim_callcore (n : Nat) (hf : FuncSim T n) (hd : 0 < T.d) {rt : CSem.Ty} 
   have hl1 : c.lastid ≤ la.2.2.lastid := by
     have := (lowerArgs_good T.S.cs c.slots args c.ctx).1
     rw [hla] at this; exact this
-  have inv1 : SInv T.M0 T.S.cs T.σ T.vtys s env1 M :=
+  have inv1 : SInv T.M0 T.S.cs T.cnts T.σ T.vtys s env1 M :=
     inv.env (slots_kept hp hpre (fun k hk hkv => by have := hfut k hk hkv; omega) hfr1)
   -- the callee
   obtain ⟨sid, hfi⟩ := T.hfuncs fn g hlk
@@ -413,11 +414,11 @@ theorem sim_callcore (n : Nat) (hf : FuncSim T n) (hd : 0 < T.d) {rt : CSem.Ty} 
 theorem sim_call (n : Nat) (hf : FuncSim T n) (hd : 0 < T.d) (dst : Option (Nat × CSem.Ty)) (rt : CSem.Ty)
     (fn : String) (args : List Expr) {out : CSem2.Outcome} {nd' : Nat}
     (hex : exec T.S.cs T.P (n + 1) s (.call dst rt fn args) = some out)
-    (hfr : frag T.P (.call dst rt fn args) = true)
+    (hfr : frag T.P T.cnts (.call dst rt fn args) = true)
     (hwt : Stmt.wt T.vtys T.ret lp.1 lp.2 nd (.call dst rt fn args) = some nd') (hp : Pos T c nd pre)
     (hext : Ext T (funcstmt T.S.cs brk cont (.call dst rt fn args) c).ctx)
     (hits : T.S.its = pre ++ (funcstmt T.S.cs brk cont (.call dst rt fn args) c).items ++ post)
-    (inv : SInv T.M0 T.S.cs T.σ T.vtys s env M) :
+    (inv : SInv T.M0 T.S.cs T.cnts T.σ T.vtys s env M) :
     Post T lp brk cont (T.at env M pre) (pre ++ (funcstmt T.S.cs brk cont (.call dst rt fn args) c).items)
       (funcstmt T.S.cs brk cont (.call dst rt fn args) c).ctx out := by
   simp only [exec] at hex
@@ -534,7 +535,7 @@ theorem sim_call (n : Nat) (hf : FuncSim T n) (hd : 0 < T.d) (dst : Option (Nat 
             obtain ⟨k, env2, r', hreach, inv2, hfr2, hval2, hrep2, hrg⟩ := sim_callcore T n hf hd hlk hfr.1 hfr.2 hvs
               hbody hwa hp hpre (fun k hk hkv => by have := hfut3 k hk hkv; omega) hits' inv
             obtain ⟨n3, env3, r3, hreach3, hfr3, hval3, hrep3, _⟩ := hcast env2 r' hval2 hrep2 hrg
-            have inv3 : SInv T.M0 T.S.cs T.σ T.vtys s env3 M :=
+            have inv3 : SInv T.M0 T.S.cs T.cnts T.σ T.vtys s env3 M :=
               inv2.env (slots_kept hp hpre hfut3 (Frame.mono hfr3
                 (by show c.lastid ≤ (lowerArgs T.S.cs c.slots args c.ctx).2.2.lastid + 1; omega) (Nat.le_refl _)))
             have hv : InRange (t.intTy T.S.cs) (conv (rt.intTy T.S.cs) (t.intTy T.S.cs) v) :=
